@@ -412,7 +412,7 @@ func init() {
 	core.Register(&core.Prop{
 		ID:        "C13",
 		Technique: "descriptor-walk monitor: JSON produced by the real Descriptor.Read + JSONOutput from Marshal's output, parsed by encoding/json and matched against the generated value in the JSON data model; repeated with the Descriptor restored through plenc and through encoding/json",
-		Rule: "default configuration; generated non-recursive types (no proto option) x boundary-biased values with finite floats, times within years 1..9999, valid-UTF-8 strings and non-negative narrow flat ints: slices of every element kind incl. bool/time/empty elements and nil pointers, string-keyed maps with zero values and empty keys, other maps with zero entries, pointers, null.*, JSON any with nulls. " +
+		Rule: "default configuration, one case in nine on an instance whose time.Time codec is the BigQuery timestamp codec (every eighteenth case a host type with a time in every untagged position); generated non-recursive types (no proto option) x boundary-biased values with finite floats, times within years 1..9999, valid-UTF-8 strings and non-negative narrow flat ints: slices of every element kind incl. bool/time/empty elements and nil pointers, string-keyed maps with zero values and empty keys, other maps with zero entries, pointers, null.*, JSON any with nulls. " +
 			"The output must parse, match the value (omitted fields may be absent, numbers exact), and be byte-identical for the two restored descriptors and for one process-long JSONOutput that is Reset before every walk; every third case ends with 4 goroutines walking the case's messages through the one Descriptor at once. distinct = (type, value-shape) hashes with non-zero content",
 		Assume: []string{"known findings D20 (recursive types) and D21 (negative narrow flat ints) are excluded from generation", "encoding/json as the independent parser"},
 		Plan: func(tier string) []core.Lane {
